@@ -266,6 +266,122 @@ def r5_reload_covers_every_folder(ctx):
         r.anchor_missing("ClientAccountStorage::unlock")
 
 
+UPSERT_KEEPS = {"created_at": "the creation time of an existing row is kept on purpose"}
+
+
+def r7_upsert_complete(ctx):
+    """INSERT .. ON CONFLICT (key) DO UPDATE SET ..: every inserted column that is
+    neither the conflict key nor tabled as deliberately kept must be updated,
+    otherwise re-writing an existing row silently keeps the old value."""
+    ws = ctx.ws
+    r = ctx.rule("C01-R7", "an upsert updates every column it inserts (except the conflict key and tabled immutable columns)",
+                 floor=1, kind="K8 SQL literal analysis")
+    n = 0
+    for root, f in sorted(ws.fns.items()):
+        if not f.crate.startswith("sos_database") or f.crate in idioms.TEST_CRATES:
+            continue
+        for st in sql.statements(ws, f):
+            oc = " ".join(st.texts("on_conflict"))
+            if st.kind != "Insert" or "DO UPDATE" not in oc.upper():
+                continue
+            n += 1
+            into = " ".join(st.texts("insert_into"))
+            m = re.search(r"\(([^)]*)\)", into)
+            cols = [c.strip() for c in m.group(1).split(",")] if m else []
+            mk = re.search(r"\(([^)]*)\)", oc)
+            keys = [c.strip() for c in mk.group(1).split(",")] if mk else []
+            sets = re.findall(r"(\w+)\s*=\s*excluded\.", oc)
+            missing = [c for c in cols if c not in keys and c not in sets and c not in UPSERT_KEEPS]
+            k = "%s|upsert" % root
+            if not cols or not sets:
+                r.violation(k, st.where(), "cannot read the column lists of the upsert (%s)" % st.describe()[:120], work=1)
+            elif missing:
+                r.violation(k, st.where(),
+                            "the upsert inserts %s but its DO UPDATE SET list omits %s: writing a row whose key already exists keeps the old %s (a secret re-created in another folder stays in the old one)" % (cols, missing, "/".join(missing)),
+                            work=len(cols))
+            else:
+                r.ok(k, st.where(), "DO UPDATE SET covers %s; key %s; kept: %s" % (sets, keys, [c for c in cols if c in UPSERT_KEEPS]), work=len(cols))
+    if n == 0:
+        r.anchor_missing("INSERT .. ON CONFLICT .. DO UPDATE statements in sos_database")
+
+
+def _expr(body, op, defs, depth=0):
+    """Normalised expression tree of an operand (single-definition locals expanded)."""
+    c = cfg.op_const(op)
+    if c is not None:
+        return ("const", c.get("i", c.get("b", c.get("s", "?"))))
+    p_ = cfg.op_place(op)
+    if p_ is None:
+        return ("?",)
+    l = cfg.place_local(p_)
+    proj = ".".join(cfg.place_proj(p_))
+    ds = defs.get(l, [])
+    if depth > 12 or len(ds) != 1:
+        return ("var", body.var_name(l) or "", proj)
+    _bi, st, is_term = ds[0]
+    if is_term:
+        return ("call", cname(st), proj) if st["k"] == "call" else ("var", proj)
+    k = st.get("k")
+    if proj:
+        if k == "bin" and (st.get("op") or "").endswith("WithOverflow") and proj.startswith("f0"):
+            op_ = st["op"].replace("WithOverflow", "")
+            a, b = (_expr(body, o, defs, depth + 1) for o in st["ops"])
+            if op_ in ("Add", "Mul") and repr(b) < repr(a):
+                a, b = b, a
+            return (op_, a, b)
+        return ("proj", proj, body.var_name(l) or "")
+    if k == "use":
+        return _expr(body, st["ops"][0], defs, depth + 1)
+    if k == "cast":
+        return ("cast", _expr(body, st["ops"][0], defs, depth + 1))
+    if k == "bin":
+        op_ = (st.get("op") or "").replace("WithOverflow", "")
+        a, b = (_expr(body, o, defs, depth + 1) for o in st["ops"])
+        if op_ in ("Add", "Mul") and repr(b) < repr(a):
+            a, b = b, a
+        return (op_, a, b)
+    return (k or "?",)
+
+
+def r8_row_cut_siblings(ctx):
+    """update_secret and delete_secret of the vault file writer cut the same
+    row out of the same file format: the start of the preserved tail must be
+    computed from find_row's result by the same expression in both."""
+    ws = ctx.ws
+    r = ctx.rule("C01-R8", "the vault file writer locates the end of a row the same way when it updates and when it deletes",
+                 floor=1, kind="K5 sibling agreement (expression shape)")
+    shapes = {}
+    for f in ws.find_fns(r"VaultFileWriter<.*>.*::(update_secret|delete_secret)$"):
+        body = cfg.code_body(ws, f)
+        defs = cfg.defs_of(body)
+        for i, t in idioms.real_calls(body):
+            if cname(t) != "splice" or len(t["args"]) < 3:
+                continue
+            tp = cfg.op_place(t["args"][2])
+            if tp is None:
+                continue
+            l = cfg.place_local(tp)
+            for _hop in range(6):
+                ds = defs.get(l, [])
+                if len(ds) == 1 and not ds[0][2] and ds[0][1].get("k") == "use" and cfg.op_place(ds[0][1]["ops"][0]):
+                    l = cfg.place_local(cfg.op_place(ds[0][1]["ops"][0]))
+                    continue
+                break
+            for (_bi, st, is_term) in defs.get(l, []):
+                if not is_term and st.get("k") == "agg" and "Range" in (st.get("adt") or ""):
+                    e = _expr(body, st["ops"][0], defs)
+                    shapes[idioms.last_seg(f.root)] = (e, cfg.loc(body, i))
+    if len(shapes) < 2:
+        r.anchor_missing("splice calls in VaultFileWriter::update_secret / delete_secret (found %d)" % len(shapes))
+        return
+    (ea, la), (eb, lb) = shapes["update_secret"], shapes["delete_secret"]
+    k = "sos_filesystem::vault_writer::VaultFileWriter|tail-start"
+    if ea == eb:
+        r.ok(k, la, "both compute the tail start as %s" % (ea,), work=2)
+    else:
+        r.violation(k, la, "update_secret computes the start of the preserved tail as %s but delete_secret as %s: after find_row changed its meaning only one of them was adapted, so one of them cuts the file in the wrong place" % (ea, eb), work=2)
+
+
 def run(ctx):
     ctx.explanation = (
         "Pairing/ordering, sibling-agreement and SQL rules on the write path of folder contents: (R1) every mutator of "
@@ -283,3 +399,5 @@ def run(ctx):
     r4_sql_scoping(ctx)
     r5_reload_covers_every_folder(ctx)
     r6_no_partial_io(ctx)
+    r7_upsert_complete(ctx)
+    r8_row_cut_siblings(ctx)
